@@ -81,6 +81,23 @@ def r1_splice_discipline(ctx, rule):
                 ok = False
                 ctx.bad(rule, qual, 'splice conditions %s' % sconds, 'the section is replaced only when the detector found '
                         'something', facts, sps[0])
+        # the found values are accumulated under exactly the conditions of the splice (once per positive result)
+        if sps:
+            sc = [(U(tt), p_) for tt, p_ in path_conditions(mod, sps[0], stop=lp)]
+            accs = [s_ for s_ in walk_stmts(lp.body) if isinstance(s_, ast.Expr) and isinstance(s_.value, ast.Call)
+                    and isinstance(s_.value.func, ast.Attribute) and s_.value.func.attr in ('append', 'extend')
+                    and U(s_.value.func.value) != L and U(s_.value.func.value).endswith('_list')]
+            facts['accumulate'] = [U(a) for a in accs]
+            if not accs:
+                ok = False
+                ctx.bad(rule, qual, 'found values are not accumulated', 'every positive result must be reported', facts, lp)
+            for a in accs:
+                ac = [(U(tt), p_) for tt, p_ in path_conditions(mod, a, stop=lp)]
+                if ac != sc:
+                    ok = False
+                    ctx.bad(rule, qual, 'found value accumulated under %s, section replaced under %s' % (ac, sc),
+                            'each labelled segment must be reported exactly once (a de-duplicated or filtered found list makes '
+                            'the tallies - and the scorer product - disagree with the segments)', facts, a)
         # index advance: one top-level `index += 1`; nothing else changes the index
         steps = [s for s in walk_stmts(lp.body) if isinstance(s, (ast.AugAssign, ast.Assign))
                  and U(s.targets[0] if isinstance(s, ast.Assign) else s.target) == iv]
@@ -118,6 +135,7 @@ class Strings:
         self.base = '%s[0]' % ps[0] if ps else None
         self.same = {self.base}
         self.lower = set()
+        self.method = {}
         if ps and ps[0] == 'password':
             self.base = 'password'
             self.same = {'password'}
@@ -125,8 +143,9 @@ class Strings:
             vals = {U(v) for s, v in lst if v is not None}
             if vals and vals <= {self.base}:
                 self.same.add(nm)
-            elif vals and vals <= {self.base + '.lower()'}:
+            elif vals and all(v in (self.base + '.lower()', self.base + '.casefold()', self.base + '.upper()') for v in vals):
                 self.lower.add(nm)
+                self.method[nm] = sorted(vals)[0].rpartition('.')[2]
 
     def kind(self, text):
         if text in self.same:
@@ -584,7 +603,9 @@ def r7_index_space(ctx, rule):
                 if idx_names & derived:
                     uses.append(node)
         if uses:
-            ctx.bad(rule, qual, 'original string sliced with indexes computed on its lower-cased copy',
+            meth = sorted(set(S.method.values()))[0] if S.method else 'lower()'
+            ctx.bad(rule, qual, 'original string sliced with indexes computed on its lower-cased copy' if meth == 'lower()'
+                    else 'original string sliced with indexes computed on its %s copy' % meth,
                     "str.lower() can change the length (U+0130 'İ' lowers to two code points): every index after such a "
                     "character is shifted, so segments lose or duplicate characters, become empty or get a wrong length label "
                     "(e.g. %s)" % U(uses[0]), {'derived_indexes': sorted(derived), 'uses': [U(u) for u in uses][:6]}, uses[0])
@@ -719,11 +740,16 @@ def r11_multiword_training_runs(ctx, rule):
         ctx.ok(rule, q, 'every non-letter restarts run length and trie position; counts only for runs >= min_len', facts)
 
 
+def _validated_input(ctx, rule):
+    from . import c07
+    return c07.r1b_validate_final_value(ctx, rule)
+
+
 def rules(tier):
     return [('C05.R1', r1_splice_discipline), ('C05.R2', r2_slice_tiling), ('C05.R4', r4_multiword_parts),
             ('C05.R5', r5_totality), ('C05.R6', r6_counter_pairing), ('C05.R7', r7_index_space), ('C05.R8', r8_constants),
             ('C05.R10', r10_keyboard_single_layout),
-            ('C05.R11', r11_multiword_training_runs)]
+            ('C05.R11', r11_multiword_training_runs), ('C05.R12', _validated_input)]
 
 
 META = {
